@@ -182,27 +182,37 @@ theorem withRx_some_ok {c : Ctx} {a : α} (hl : lookup s.rx ssrc = some c) (ho :
   cases hfc : f c with
   | mk r c' => rw [hfc] at ho; simp only at ho; subst ho; rfl
 
-theorem withRx_none_newerr {e : Err} (hl : lookup s.rx ssrc = none)
+theorem withRx_none_full (hl : lookup s.rx ssrc = none) (hf : rxFull s.rx now = true) :
+    s.withRx S now ssrc f = (.error .internal, s) := by
+  unfold Sess.withRx; simp only [hl, hf, if_true]
+
+theorem withRx_none_newerr {e : Err} (hl : lookup s.rx ssrc = none) (hf : rxFull s.rx now = false)
     (hn : Ctx.new S ssrc s.profile s.rxMk s.rxMs now = .error e) :
     s.withRx S now ssrc f = (.error e, s) := by
-  unfold Sess.withRx; simp only [hl, hn]
+  unfold Sess.withRx; simp only [hl, hf, hn, Bool.false_eq_true, if_false]
 
-theorem withRx_none_err {c : Ctx} {e : Err} (hl : lookup s.rx ssrc = none)
+theorem withRx_none_err {c : Ctx} {e : Err} (hl : lookup s.rx ssrc = none) (hf : rxFull s.rx now = false)
     (hn : Ctx.new S ssrc s.profile s.rxMk s.rxMs now = .ok c) (he : (f c).1 = .error e) :
     s.withRx S now ssrc f = (.error e, s) := by
   unfold Sess.withRx
-  simp only [hl, hn]
+  simp only [hl, hf, hn, Bool.false_eq_true, if_false]
   cases hfc : f c with
   | mk r c' => rw [hfc] at he; simp only at he; subst he; rfl
 
-theorem withRx_none_ok {c : Ctx} {a : α} (hl : lookup s.rx ssrc = none)
+theorem withRx_none_ok {c : Ctx} {a : α} (hl : lookup s.rx ssrc = none) (hf : rxFull s.rx now = false)
     (hn : Ctx.new S ssrc s.profile s.rxMk s.rxMs now = .ok c) (ho : (f c).1 = .ok a) :
     s.withRx S now ssrc f =
       (.ok a, { s with rx := evict s.rx ssrc now ++ [{ (f c).2 with lastUsed := now }] }) := by
   unfold Sess.withRx
-  simp only [hl, hn]
+  simp only [hl, hf, hn, Bool.false_eq_true, if_false]
   cases hfc : f c with
   | mk r c' => rw [hfc] at ho; simp only at ho; subst ho; rfl
+
+/-- below the cap the table is never full -/
+theorem rxFull_of_lt {t : List Ctx} {now : Nat} (h : t.length < maxRxContexts) : rxFull t now = false := by
+  unfold rxFull
+  have : decide (maxRxContexts ≤ t.length) = false := decide_eq_false (by omega)
+  rw [this, Bool.false_and]
 
 end withRx
 
